@@ -116,6 +116,16 @@ example : water2.result genTable =
   decide +kernel
 example : (mixed.result genTable).isSome = true := by decide +kernel
 
+/-- the greedy reading, stated rather than hidden: the documented grammar lets a blank separate two
+    groups, but the element loop of the implementation skips blanks, so a leading count also
+    multiplies the blank-separated elements that follow (`6H2O CaCO3` is 6·(H2O CaCO3), while
+    `6H2O+CaCO3` and `CaCO3 6H2O` are hydrated calcium carbonate).  `canon` excludes the
+    two-group derivation of such a string; its one-group derivation is canonical. -/
+example : parse genTable "6H2O CaCO3".toList =
+    .ok (.cons ⟨6, 0⟩ (.group (.cons ⟨2, 0⟩ (.atom ⟨1, 0, 0⟩) (.cons ⟨1, 0⟩ (.atom ⟨8, 0, 0⟩)
+      (.cons ⟨1, 0⟩ (.atom ⟨20, 0, 0⟩) (.cons ⟨1, 0⟩ (.atom ⟨6, 0, 0⟩) (.cons ⟨3, 0⟩ (.atom ⟨8, 0, 0⟩) .nil)))))) .nil,
+      none) := by decide +kernel
+
 /-- an unknown symbol, an undefined isotope: `result = none`, hence rejected by `undefined_rejected` -/
 def badSym : Compound := .full [] (.one (.implicit .none [elH2, elXx])) none []
 def badIso : Compound := .full [] (.one (.explicit [] [] (.one (.implicit .none [elFe99])) [] [] (.whole ['2']))) none []
